@@ -184,6 +184,18 @@ func (e *PathMatchExpression) PathLeadsToMatch(base *Path, candidate *Path) bool
 	return e.pathMatches(base, candidate, true)
 }
 
+// PathIs is true only if candidate, after you subtract the base, is exactly one of the
+// selector paths and not something beneath one.
+func (e *PathMatchExpression) PathIs(base *Path, candidate *Path) bool {
+	n := candidate.Len() - base.Len()
+	for _, path := range e.paths {
+		if len(path) == n && e.match(path, base, candidate, false) {
+			return true
+		}
+	}
+	return false
+}
+
 func (e *PathMatchExpression) pathMatches(base *Path, candidate *Path, partial bool) bool {
 	// NOTE: empty selector means select everything
 	if len(e.paths) == 0 {
